@@ -24,8 +24,9 @@ MODES = {
     "insert_python-listarg": (lambda p: p.insert_python(["x", 1], {"k": 2}, module="vp_sink", attr="hit"), (["x", 1], {"k": 2}), "keep"),
     "insert_python-boolint": (lambda p: p.insert_python(1, True, 0, False, module="vp_sink", attr="hit"), (1, True, 0, False), "keep"),
     "insert_python-intbool": (lambda p: p.insert_python(True, 1, False, 0, module="vp_sink", attr="hit"), (True, 1, False, 0), "keep"),
-    "insert_python-int-boundaries": (lambda p: p.insert_python(2**31, -(2**31), 2**31 - 1, 2**32, 65536, module="vp_sink", attr="hit"),
-                                     (2**31, -(2**31), 2**31 - 1, 2**32, 65536), "keep"),
+    "insert_python-int-boundaries": (lambda p: p.insert_python(2**31, -(2**31), 2**31 - 1, 2**32, 65536, 0, 127, 128, 200, 255, 32768, 40000, 65535,
+                                                                       module="vp_sink", attr="hit"),
+                                     (2**31, -(2**31), 2**31 - 1, 2**32, 65536, 0, 127, 128, 200, 255, 32768, 40000, 65535), "keep"),
     "insert_python-long-text": (lambda p: p.insert_python("é" * 128, "x" * 255, "y" * 256, "\u20ac" * 90, module="vp_sink", attr="hit"),
                                 ("é" * 128, "x" * 255, "y" * 256, "\u20ac" * 90), "keep"),
     "insert_python_exec": (lambda p: p.insert_python_exec(EXEC_PAYLOAD), ("exec-arg",), "keep"),
